@@ -14,6 +14,8 @@ import SerfProofs.Lemmas.Pipeline
 import SerfProofs.Lemmas.PipelineLast
 import SerfProofs.Lemmas.PipelineDrain
 import SerfModel.Gen.MemberLocks
+import SerfProofs.Props.C17
+import SerfProofs.Props.C18
 namespace SerfProofs.C16
 open SerfModel SerfModel.MemberCoalesce SerfModel.Pipeline SerfProofs.Pipeline
 
@@ -177,6 +179,20 @@ theorem C16_status_handlers_send_under_lock :
 example : SerfModel.MemberLocks.allSendsUnderLock
     [{ name := "handleNodeLeave", sends := 1, lockCall := "Lock", shape := "other", earlyUnlock := false,
        sendsInside := false, callSites := [] }] = false := by decide
+
+/-- The coalescer stages of the pipeline model are the source's: the member coalescer stores
+unconditionally and suppresses by the source's guard (C17 ties), and both coalescer stages run
+the source's `coalesceLoop` (C18 tie) — so an edit to serf/coalesce_member.go or serf/coalesce.go
+reaches this property's obligations as well. -/
+theorem C16_coalescer_stages_are_the_source :
+    (∀ ok previous cur, SerfModel.Gen.Coalescers.memberSuppressCond.eval SerfModel.CoalesceShapes.kindOps
+        (SerfModel.CoalesceShapes.memberEnvB ok) (SerfModel.CoalesceShapes.memberEnvV previous cur) =
+        some (ok && previous == cur && cur != .update)) ∧
+    SerfModel.Gen.Coalescers.memberCoalesceLoopBody =
+      ["c.latestEvents[m.Name] = coalesceEvent{Type: e.Type, Member: &m}"] ∧
+    SerfModel.Gen.Coalescers.loopFlush = ["c.Flush(outCh)", "if !shutdown { goto INGEST }"] :=
+  ⟨SerfProofs.C17.C17_suppress_cond_tie, SerfProofs.C17.C17_coalesce_stores_unconditionally.2,
+   SerfProofs.C18.C18_loop_shape.2.2.1⟩
 
 /-! ### Non-vacuity: a run through all four stages with coalescing, a drop and a suppression -/
 
